@@ -102,7 +102,7 @@ def main(run):
                                        persistent=False, budget=budget, predicted='~'))
                     run.case((adapter, op, tuple(script)))
                 # faults that never go away, one per kind
-                for kind in (['io'] if adapter == 'local' else ['io', 'status']):
+                for kind in (['io'] if adapter == 'local' else ['io', 'status', 'html']):      # html: a 400 whose body is not the service's error format
                     o = run_one(adapter, op, [], payload, root, '%sP%s' % (op, kind), persistent=(0, kind))
                     events.append(dict(o, adapter=adapter, op=op, script=[['*', 0, kind]], nfaults=999, persistent=True, budget=budget, predicted='error'))
                     run.case((adapter, op, 'persistent', kind))
